@@ -376,11 +376,14 @@ def main(argv=None):
                                                                    'result': v['result']}}, fh, indent=1)
         print('VIOLATION property=%s replay=%s' % (pid, rp))
         exit_code = 1
+    printed_known = set()
     for rep in bounded_reports:
         for v in rep.get('violations', []):
             k = matches_known(known, v.get('function'), v.get('clause', ''))
             if k is not None:
-                print('KNOWN-FINDING: property=%s %s' % (pid, k.get('what', '')))
+                if id(k) not in printed_known:
+                    printed_known.add(id(k))
+                    print('KNOWN-FINDING: property=%s %s' % (pid, k.get('what', '')))
                 continue
             nviol += 1
             rp = os.path.join(VERIF, 'replays', '%s-bounded-%d.json' % (pid, nviol))
